@@ -5,7 +5,7 @@ A change of the keyword wiring, of the date helpers' zone handling, of the isins
 the output paths or of the integer-list normaliser changes the generated file and one of these
 lemmas stops type-checking.
 
-Recorded defects are stated *relative to* `Known.*` (mirrors `known_findings.json`): the known
+Recorded (unrepaired) defects are stated *relative to* `Known.*` (mirrors `known_findings.json`): the known
 mismatch builds, any new one breaks the lemma.
 -/
 import SnowModel.Core.Rrule
@@ -15,11 +15,11 @@ namespace SnowModel.Props.C15Bridge
 open SnowModel.Rrule
 
 namespace Known
-/-- D13: `byweekno = process_list_of_ints(bysecond)` -/
-def wiringMismatches : List (Kw × Kw) := [(.byweekno, .bysecond)]
+/-- no recorded wiring mismatch (D13, `byweekno` fed from `bysecond`, was repaired by 5a30154) -/
+def wiringMismatches : List (Kw × Kw) := []
 /-- D21: every date helper builds its datetimes with `tzinfo=timezone.utc` -/
 def helperZone : String := "timezone.utc"
-/-- D23: `_normalize_until` has no `datetime` test before `isinstance(until, date)` -/
+/-- D35: `_normalize_until` has no `datetime` test before `isinstance(until, date)` -/
 def untilTests : List String :=
   ["not until", "isinstance(until, str)", "is_datetime(until)", "isinstance(until, date)"]
 end Known
@@ -45,17 +45,23 @@ theorem wiring_locals :
        ("byminute", "byminute"), ("bysecond", "bysecond"), ("cache", "cache")] := by
   decide
 
-/-- **wiring identity, relative to the recorded defect**: apart from the structural renames, the
-    keywords that are *not* fed from the same-named parameter are exactly `Known.wiringMismatches` -/
+/-- **wiring_identity over the pin**: apart from the three structural renames, every keyword of
+    the pinned `rrule(...)` call is fed from the same-named parameter -/
+theorem wiring_identity_pinned :
+    ∀ e ∈ Gen.Schedule.rruleWiring,
+      (e.1, e.2.2) ∈ structuralRenames.map (fun r => (r.1.name, r.2.name)) ∨ e.1 = e.2.2 := by
+  decide
+
+/-- the same on the model's table; `Known.wiringMismatches` is empty -/
 theorem wiring_identity_modulo_known :
     wiringTable.filter (fun e => e.1 != e.2 && !structuralRenames.contains e) = Known.wiringMismatches := by
   decide
 
-/-- every integer-list keyword other than `byweekno` is fed from the same-named parameter -/
+/-- every integer-list keyword is fed from the same-named parameter -/
 theorem wiring_sources :
     sourceOf .bymonth = .bymonth ∧ sourceOf .bymonthday = .bymonthday ∧ sourceOf .byyearday = .byyearday ∧
     sourceOf .byhour = .byhour ∧ sourceOf .byminute = .byminute ∧ sourceOf .bysecond = .bysecond ∧
-    sourceOf .byweekno = .bysecond := by
+    sourceOf .byweekno = .byweekno := by
   decide
 
 /-- `Schedule.Event` hands every keyword to the same-named parameter of `CalendarRule` -/
@@ -88,7 +94,7 @@ theorem helpers_zone_sites :
   decide
 
 /-- `_normalize_until` as modelled by `normUntil`: string → (datetime string | date at the start's
-    time); any `date` (hence also a `datetime`: D23) → its date at the start's time; finally
+    time); any `date` (hence also a `datetime`: D35) → its date at the start's time; finally
     re-labelled UTC -/
 theorem until_pin :
     Gen.Schedule.untilTests = Known.untilTests ∧
